@@ -166,3 +166,767 @@ Lemma fresh_None c id : fresh c id = true <-> find_id c id = None.
 Proof.
   unfold fresh. rewrite negb_true_iff, bool_decide_eq_false, <- eq_None_not_Some. reflexivity.
 Qed.
+
+(* ---------------------------------------------------------------------------------------- *)
+(* The refinement invariant                                                                  *)
+
+(* the content of file i when the persisted prefix of the chain is p *)
+Definition file_at (K : Z) (p : list header) (i : Z) : option (list header) :=
+  if (i <? 0) || (zlen p <=? i * K) then None
+  else Some (take (Z.to_nat K) (drop (Z.to_nat (i * K)) p)).
+
+(* index of the newest file *)
+Definition fidx (K : Z) (c : list header) : Z := (zlen c - 1) / K.
+
+Record R (K : Z) (r : repo) (st : store) (a : astate) : Prop := mkR {
+  R_ne : chain a <> [];
+  R_nodup : NoDup (map hid (chain a));
+  R_height : height r = zlen (chain a) - 1;
+  R_saved : fidx K (chain a) * K <= saved a <= zlen (chain a);
+  R_lasth : lasth r = drop (Z.to_nat (fidx K (chain a) * K)) (chain a);
+  R_heights : forall id, heights r !! id = find_id (chain a) id;
+  R_store : forall i, st !! i = file_at K (take (Z.to_nat (saved a)) (chain a)) i;
+}.
+
+Lemma fidx_bounds K c :
+  0 < K -> c <> [] ->
+  0 <= fidx K c /\ 0 <= fidx K c * K /\ fidx K c * K <= zlen c - 1 < (fidx K c + 1) * K.
+Proof.
+  intros HK Hne. pose proof (zlen_pos c Hne) as Hp. unfold fidx.
+  pose proof (div_bounds (zlen c - 1) K HK) as Hb.
+  pose proof (div_nonneg (zlen c - 1) K HK ltac:(lia)) as Hn.
+  split; [exact Hn|]. split; [nia|exact Hb].
+Qed.
+
+Lemma fidx_unique K c q : 0 < K -> q * K <= zlen c - 1 < (q + 1) * K -> fidx K c = q.
+Proof. intros HK Hq. unfold fidx. apply div_unique_bounds; assumption. Qed.
+
+Lemma file_at_None K p i : 0 < K -> i < 0 \/ zlen p <= i * K -> file_at K p i = None.
+Proof.
+  intros HK Hi. unfold file_at.
+  destruct ((i <? 0) || (zlen p <=? i * K)) eqn:E; [reflexivity|lia].
+Qed.
+
+Lemma file_at_Some K p i :
+  0 <= i -> i * K < zlen p ->
+  file_at K p i = Some (take (Z.to_nat K) (drop (Z.to_nat (i * K)) p)).
+Proof.
+  intros Hi Hl. unfold file_at.
+  destruct ((i <? 0) || (zlen p <=? i * K)) eqn:E; [lia|reflexivity].
+Qed.
+
+Lemma R_init K : 0 < K -> R K (fst init_state) (snd init_state) a_init.
+Proof.
+  intros HK. assert (Hf : fidx K [genesis] = 0).
+  { apply fidx_unique; [exact HK|]. change (zlen [genesis]) with 1. lia. }
+  constructor; cbn [init_state a_init fst snd chain saved height lasth heights].
+  - discriminate.
+  - cbn. apply NoDup_singleton.
+  - reflexivity.
+  - rewrite Hf. change (zlen [genesis]) with 1. lia.
+  - rewrite Hf. reflexivity.
+  - intros id. rewrite find_id_from. cbn [find_from genesis hid].
+    destruct (0 =? id) eqn:E.
+    + apply Z.eqb_eq in E. subst id. apply lookup_singleton.
+    + apply lookup_singleton_ne. lia.
+  - intros i. unfold store. rewrite lookup_empty. symmetry. apply file_at_None; [exact HK|].
+    rewrite take_0. change (zlen []) with 0. destruct (Z.lt_ge_cases i 0); [left; lia|right; nia].
+Qed.
+
+(* ---------------------------------------------------------------------------------------- *)
+(* Queries                                                                                   *)
+
+(* Where the header of height h is found: in lastHeaders or in a full older file. *)
+Lemma R_lookup K r st a h x :
+  0 < K -> R K r st a -> 0 <= h -> chain a !! Z.to_nat h = Some x ->
+  ((height r - h <? zlen (lasth r)) = true /\
+   index (lasth r) (zlen (lasth r) - 1 - (height r - h)) = Ok x) \/
+  ((height r - h <? zlen (lasth r)) = false /\
+   exists hs, read K st h = Ok hs /\ (zlen hs =? K) = true /\ index hs (gomod h K) = Ok x).
+Proof.
+  intros HK [Hne Hnd Hh Hs Hl Hhs Hst] Hh0 Hx.
+  set (c := chain a) in *. set (n := saved a) in *.
+  destruct (fidx_bounds K c HK Hne) as (Hf0 & HfK0 & Hfb). set (f := fidx K c) in *.
+  pose proof (lookup_lt_Some _ _ _ Hx) as Hlt.
+  assert (Hzl : zlen (lasth r) = zlen c - f * K) by (rewrite Hl, zlen_drop; lia).
+  rewrite Hzl.
+  destruct (height r - h <? zlen c - f * K) eqn:E3; [left|right]; (split; [reflexivity|]).
+  - apply index_ok; [unfold zlen in *; lia|]. rewrite Hl, lookup_drop, <- Hx. f_equal.
+    unfold zlen in *. lia.
+  - pose proof (div_bounds h K HK) as Hg. pose proof (div_nonneg h K HK Hh0) as Hg0.
+    set (g := h / K) in *.
+    assert (Hgf : g + 1 <= f) by (assert (g < f); [apply (mul_lt_K_inv g f K HK)|]; lia).
+    pose proof (mul_le_mono_K (g + 1) f K HK Hgf) as HgK.
+    assert (HgK0 : 0 <= g * K) by nia.
+    unfold read, path. rewrite godiv_div by lia. fold g. rewrite Hst.
+    rewrite file_at_Some; [|lia|rewrite zlen_take; lia].
+    eexists. split; [reflexivity|]. split.
+    + rewrite zlen_take, zlen_drop, zlen_take. lia.
+    + rewrite gomod_mod by lia. pose proof (Z.mod_pos_bound h K HK) as Hm.
+      pose proof (mod_eq_sub h K HK) as Hme. fold g in Hme.
+      apply index_ok; [lia|].
+      rewrite lookup_take by lia. rewrite lookup_drop. rewrite lookup_take by lia.
+      rewrite <- Hx. f_equal. lia.
+Qed.
+
+Lemma at_height_Some c h x : at_height c h = Some x -> 0 <= h /\ c !! Z.to_nat h = Some x.
+Proof. unfold at_height. destruct (h <? 0) eqn:E; [discriminate|]. intros H. split; [lia|exact H]. Qed.
+
+Lemma at_height_None c h : at_height c h = None -> h < 0 \/ zlen c <= h.
+Proof.
+  unfold at_height. destruct (h <? 0) eqn:E; [lia|]. intros H%lookup_ge_None.
+  unfold zlen. lia.
+Qed.
+
+Lemma get_header_spec K r st a h :
+  0 < K -> R K r st a ->
+  get_header K r st h = match at_height (chain a) h with Some x => Ok x | None => Err EGeneric end.
+Proof.
+  intros HK HR. pose proof (R_height _ _ _ _ HR) as Hh. unfold get_header.
+  destruct (at_height (chain a) h) as [x|] eqn:E.
+  - apply at_height_Some in E as [Hh0 Hx]. pose proof (lookup_lt_Some _ _ _ Hx) as Hlt.
+    destruct (h >? height r) eqn:E1; [unfold zlen in *; lia|].
+    destruct (h <? 0) eqn:E2; [lia|].
+    destruct (R_lookup K r st a h x HK HR Hh0 Hx) as [[-> ->]|[-> (hs & -> & -> & ->)]]; reflexivity.
+  - apply at_height_None in E.
+    destruct (h >? height r) eqn:E1; [reflexivity|].
+    destruct (h <? 0) eqn:E2; [reflexivity|lia].
+Qed.
+
+Lemma get_hash_spec K r st a h :
+  0 < K -> R K r st a ->
+  get_hash K r st h = match at_height (chain a) h with Some x => Ok (hid x) | None => Err EGeneric end.
+Proof.
+  intros HK HR. unfold get_hash. rewrite (get_header_spec K r st a h HK HR).
+  destruct (at_height (chain a) h); reflexivity.
+Qed.
+
+Lemma get_time_spec K r st a h :
+  0 < K -> R K r st a ->
+  get_time K r st h = Ok (match at_height (chain a) h with Some x => htime x | None => 0 end).
+Proof.
+  intros HK HR. pose proof (R_height _ _ _ _ HR) as Hh. unfold get_time.
+  destruct (at_height (chain a) h) as [x|] eqn:E.
+  - apply at_height_Some in E as [Hh0 Hx]. pose proof (lookup_lt_Some _ _ _ Hx) as Hlt.
+    destruct ((h >? height r) || (h <? 0)) eqn:E1; [unfold zlen in *; lia|].
+    destruct (R_lookup K r st a h x HK HR Hh0 Hx) as [[-> ->]|[-> (hs & -> & -> & ->)]]; reflexivity.
+  - apply at_height_None in E.
+    destruct ((h >? height r) || (h <? 0)) eqn:E1; [reflexivity|lia].
+Qed.
+
+Lemma last_hash_spec K r st a :
+  0 < K -> R K r st a ->
+  exists x, last (chain a) = Some x /\ last_hash r = Ok (hid x).
+Proof.
+  intros HK [Hne Hnd Hh Hs Hl Hhs Hst].
+  set (c := chain a) in *.
+  destruct (fidx_bounds K c HK Hne) as (Hf0 & HfK0 & Hfb). set (f := fidx K c) in *.
+  pose proof (zlen_pos c Hne) as Hp.
+  assert (Hlt : (Z.to_nat (f * K) < length c)%nat) by (unfold zlen in *; lia).
+  assert (Hzl : zlen (lasth r) = zlen c - f * K) by (rewrite Hl, zlen_drop; lia).
+  destruct (last c) as [x|] eqn:E.
+  2:{ rewrite last_lookup in E. apply lookup_ge_None in E. unfold zlen in *. lia. }
+  exists x. split; [reflexivity|]. unfold last_hash.
+  rewrite (index_ok (lasth r) _ x); [reflexivity|lia|].
+  rewrite <- E, <- (last_drop c _ Hlt), <- Hl, last_lookup. f_equal. unfold zlen. lia.
+Qed.
+
+Lemma get_headers_loop_spec K r st a fuel i :
+  0 < K -> R K r st a -> 0 <= i ->
+  get_headers_loop K r st fuel i = Ok (take fuel (drop (Z.to_nat i) (chain a))).
+Proof.
+  intros HK HR. revert i. induction fuel as [|fuel IH]; intros i Hi.
+  - rewrite take_0. reflexivity.
+  - cbn [get_headers_loop]. unfold header_at. destruct (i =? -1) eqn:E; [lia|].
+    rewrite (get_header_spec K r st a i HK HR).
+    destruct (at_height (chain a) i) as [x|] eqn:E2.
+    + apply at_height_Some in E2 as [_ Hx]. rewrite IH by lia. cbn [res_bind].
+      replace (Z.to_nat (i + 1)) with (S (Z.to_nat i)) by lia.
+      rewrite (drop_S _ _ _ Hx). reflexivity.
+    + apply at_height_None in E2. rewrite drop_ge by (unfold zlen in *; lia).
+      rewrite take_nil. reflexivity.
+Qed.
+
+Lemma get_headers_spec K r st a h maxc :
+  0 < K -> R K r st a ->
+  get_headers K r st h maxc =
+  let start := if h =? -1 then Z.max 0 (zlen (chain a) - maxc) else h in
+  Ok (h, start, if start <? 0 then [] else take (Z.to_nat maxc) (drop (Z.to_nat start) (chain a))).
+Proof.
+  intros HK HR. pose proof (R_height _ _ _ _ HR) as Hh. unfold get_headers. rewrite Hh.
+  replace (zlen (chain a) - 1 - maxc + 1) with (zlen (chain a) - maxc) by lia.
+  set (start := if h =? -1 then Z.max 0 (zlen (chain a) - maxc) else h). cbv zeta.
+  assert (Hs1 : start <> -1) by (subst start; destruct (h =? -1) eqn:E; lia).
+  destruct (start <? 0) eqn:E.
+  - destruct (Z.to_nat (Z.min maxc (zlen (chain a) - 1 + 2))) as [|fuel]; [reflexivity|].
+    cbn [get_headers_loop]. unfold header_at. destruct (start =? -1) eqn:E1; [lia|].
+    rewrite (get_header_spec K r st a start HK HR). unfold at_height. rewrite E. reflexivity.
+  - rewrite (get_headers_loop_spec K r st a _ start HK HR) by lia. cbn [res_bind].
+    f_equal. f_equal.
+    destruct (Z.le_gt_cases maxc (zlen (chain a) - 1 + 2)) as [Hle|Hgt].
+    + rewrite Z.min_l by lia. reflexivity.
+    + rewrite Z.min_r by lia. rewrite !take_ge; [reflexivity| |]; rewrite drop_length;
+        unfold zlen in *; lia.
+Qed.
+
+(* ---------------------------------------------------------------------------------------- *)
+(* Save and Add                                                                              *)
+
+Lemma file_at_take_full K c n i :
+  0 < K -> 0 <= i -> (i + 1) * K <= n -> n <= zlen c ->
+  file_at K (take (Z.to_nat n) c) i = file_at K c i.
+Proof.
+  intros HK Hi Hn Hc. assert (0 <= i * K) by nia.
+  rewrite !file_at_Some; [|lia|lia|lia|rewrite zlen_take; lia].
+  rewrite take_drop_take. do 2 f_equal. lia.
+Qed.
+
+Lemma save_R K r st a :
+  0 < K -> R K r st a -> R K r (save K r st) (AState (chain a) (zlen (chain a))).
+Proof.
+  intros HK [Hne Hnd Hh Hs Hl Hhs Hst].
+  set (c := chain a) in *. set (n := saved a) in *.
+  destruct (fidx_bounds K c HK Hne) as (Hf0 & HfK0 & Hfb).
+  constructor; cbn [chain saved]; fold c; try assumption.
+  - lia.
+  - intros i. unfold save, path. rewrite Hh, godiv_div by lia. fold (fidx K c).
+    set (f := fidx K c) in *. rewrite take_ge by (unfold zlen; lia).
+    unfold store in *. destruct (decide (i = f)) as [->|Hne'].
+    + rewrite lookup_insert, file_at_Some by lia. rewrite Hl. f_equal. symmetry.
+      apply take_ge. rewrite drop_length. unfold zlen in *. lia.
+    + rewrite lookup_insert_ne by congruence. rewrite Hst.
+      destruct (Z.lt_ge_cases i 0) as [Hi|Hi]; [rewrite !file_at_None by lia; reflexivity|].
+      destruct (Z.lt_ge_cases i f) as [Hlt|Hge].
+      * pose proof (mul_le_mono_K (i + 1) f K HK ltac:(lia)).
+        apply file_at_take_full; lia.
+      * pose proof (mul_le_mono_K (f + 1) i K HK ltac:(lia)).
+        rewrite !file_at_None; [reflexivity|lia|lia|lia|]. right. rewrite zlen_take. lia.
+Qed.
+
+Lemma rem_boundary K z f :
+  0 < K -> 0 <= z -> f * K <= z - 1 < (f + 1) * K ->
+  (Z.rem z K =? 0) = (z - f * K =? K).
+Proof.
+  intros HK Hz Hf. rewrite Z.rem_mod_nonneg by lia.
+  destruct (z - f * K =? K) eqn:E.
+  - replace z with ((f + 1) * K) by lia. rewrite Z.mod_mul by lia. reflexivity.
+  - rewrite <- (Z.mod_unique z K f (z - f * K)); lia.
+Qed.
+
+Lemma add_core K r st a h :
+  0 < K -> R K r st a -> fresh (chain a) (hid h) = true ->
+  (zlen (lasth r) = K -> saved a = zlen (chain a)) ->
+  R K (Repo (height r + 1) ((if zlen (lasth r) =? K then [] else lasth r) ++ [h])
+            (<[hid h := height r + 1]> (heights r)))
+      st (AState (chain a ++ [h]) (saved a)).
+Proof.
+  intros HK [Hne Hnd Hh Hs Hl Hhs Hst] Hfr Hsv.
+  set (c := chain a) in *. set (n := saved a) in *.
+  destruct (fidx_bounds K c HK Hne) as (Hf0 & HfK0 & Hfb). set (f := fidx K c) in *.
+  assert (Hzl : zlen (lasth r) = zlen c - f * K) by (rewrite Hl, zlen_drop; lia).
+  apply fresh_None in Hfr. rewrite find_id_from in Hfr.
+  assert (Hf' : fidx K (c ++ [h]) = if zlen (lasth r) =? K then f + 1 else f).
+  { apply fidx_unique; [exact HK|]. rewrite zlen_app. change (zlen [h]) with 1.
+    destruct (zlen (lasth r) =? K) eqn:E; lia. }
+  constructor; cbn [chain saved height lasth heights]; fold c; fold n.
+  - intros Heq. apply app_eq_nil in Heq as [_ Heq]. discriminate.
+  - rewrite map_app. apply NoDup_app. split; [exact Hnd|]. split.
+    + intros x Hx Hx'. apply elem_of_list_singleton in Hx'. subst x.
+      apply (proj1 (find_from_None c (hid h) 0)); assumption.
+    + apply NoDup_singleton.
+  - rewrite zlen_app. change (zlen [h]) with 1. lia.
+  - rewrite Hf', zlen_app. change (zlen [h]) with 1.
+    destruct (zlen (lasth r) =? K) eqn:E; [|lia]. specialize (Hsv ltac:(lia)). lia.
+  - rewrite Hf'. destruct (zlen (lasth r) =? K) eqn:E.
+    + replace (Z.to_nat ((f + 1) * K)) with (length c) by (unfold zlen in *; lia).
+      rewrite drop_app. reflexivity.
+    + rewrite drop_app_le by (unfold zlen in *; lia). rewrite Hl. reflexivity.
+  - intros id. rewrite find_id_from, find_from_app, <- find_id_from, <- Hhs.
+    destruct (decide (hid h = id)) as [<-|Hne'].
+    + rewrite lookup_insert, Hhs, find_id_from, Hfr, Z.eqb_refl. f_equal. lia.
+    + rewrite lookup_insert_ne by exact Hne'. destruct (heights r !! id); [reflexivity|].
+      destruct (hid h =? id) eqn:E; [lia|reflexivity].
+  - intros i. rewrite Hst. rewrite take_app_le by (unfold zlen in *; lia). reflexivity.
+Qed.
+
+Lemma add_R K r st a h :
+  0 < K -> R K r st a -> fresh (chain a) (hid h) = true ->
+  R K (fst (add K r st h)) (snd (add K r st h))
+      (AState (chain a ++ [h])
+              (if Z.rem (zlen (chain a)) K =? 0 then zlen (chain a) else saved a)).
+Proof.
+  intros HK HR Hfr. pose proof HR as [Hne Hnd Hh Hs Hl Hhs Hst].
+  destruct (fidx_bounds K (chain a) HK Hne) as (Hf0 & HfK0 & Hfb).
+  assert (Hzl : zlen (lasth r) = zlen (chain a) - fidx K (chain a) * K)
+    by (rewrite Hl, zlen_drop; lia).
+  rewrite (rem_boundary K (zlen (chain a)) (fidx K (chain a))); [|lia|apply zlen_nonneg|lia].
+  rewrite <- Hzl. unfold add. destruct (zlen (lasth r) =? K) eqn:E; cbn [fst snd].
+  - pose proof (save_R K r st a HK HR) as HR1.
+    pose proof (add_core K r (save K r st) _ h HK HR1 Hfr) as HR2.
+    cbn [chain saved] in HR2. rewrite E in HR2. apply HR2. reflexivity.
+  - pose proof (add_core K r st a h HK HR Hfr) as HR2. rewrite E in HR2. apply HR2. lia.
+Qed.
+
+Definition spec_addn (K : Z) : nat -> astate -> Z -> Z -> astate :=
+  fix go (k : nat) (a : astate) (id prev : Z) : astate :=
+    match k with
+    | O => a
+    | S k' =>
+      let c := chain a in
+      go k' (AState (c ++ [Header id prev (time_of_id id)])
+                    (if Z.rem (zlen c) K =? 0 then zlen c else saved a)) (id + 1) id
+    end.
+
+Lemma spec_step_addn K a first n :
+  spec_step K a (OAddN first n) =
+  (spec_addn K (Z.to_nat n) a first (match last (chain a) with Some h => hid h | None => -88 end),
+   [OK]).
+Proof. reflexivity. Qed.
+
+Lemma fresh_range_app c h k id :
+  hid h < id -> fresh_range c k id = true -> fresh_range (c ++ [h]) k id = true.
+Proof.
+  revert id. induction k as [|k IH]; intros id Hlt; cbn [fresh_range]; [reflexivity|].
+  rewrite !andb_true_iff. intros [Hf Hr]. split; [|apply IH; [lia|exact Hr]].
+  apply fresh_None. apply fresh_None in Hf. rewrite find_id_from in *.
+  rewrite find_from_app, Hf. destruct (hid h =? id) eqn:E; [lia|reflexivity].
+Qed.
+
+Lemma add_n_R K k : forall r st a id prev,
+  0 < K -> R K r st a -> fresh_range (chain a) k id = true ->
+  R K (fst (add_n K r st k id prev)) (snd (add_n K r st k id prev)) (spec_addn K k a id prev).
+Proof.
+  induction k as [|k IH]; intros r st a id prev HK HR Hfr; cbn [add_n spec_addn]; [exact HR|].
+  cbn [fresh_range] in Hfr. apply andb_true_iff in Hfr as [Hf Hr].
+  pose proof (add_R K r st a (Header id prev (time_of_id id)) HK HR Hf) as HR1.
+  destruct (add K r st (Header id prev (time_of_id id))) as [r1 st1]. cbn [fst snd] in HR1.
+  cbv zeta. apply IH; [exact HK|exact HR1|]. cbn [chain].
+  apply fresh_range_app; [cbn [hid]; lia|exact Hr].
+Qed.
+
+(* ---------------------------------------------------------------------------------------- *)
+(* Revert                                                                                    *)
+
+Lemma collect_hashes_spec K r st a fuel : forall h,
+  0 < K -> R K r st a -> h <= height r -> 0 <= h - Z.of_nat fuel + 1 ->
+  exists l, collect_hashes K r st fuel h = Ok l /\
+    forall id, id ∈ l <->
+      exists (j : nat) x, h - Z.of_nat fuel < Z.of_nat j <= h /\ chain a !! j = Some x /\ hid x = id.
+Proof.
+  induction fuel as [|fuel IH]; intros h HK HR Hh Hlo.
+  - exists []. split; [reflexivity|]. intros id. split; [intros Hin; inversion Hin|].
+    intros (j & x & Hb & _). lia.
+  - cbn [collect_hashes]. rewrite (get_hash_spec K r st a h HK HR).
+    pose proof (R_height _ _ _ _ HR) as Hht.
+    assert (Hlt : (Z.to_nat h < length (chain a))%nat) by (unfold zlen in *; lia).
+    destruct (lookup_lt_is_Some_2 _ _ Hlt) as [x Hx].
+    unfold at_height. destruct (h <? 0) eqn:E; [lia|]. rewrite Hx. cbn [res_bind].
+    destruct (IH (h - 1) HK HR ltac:(lia) ltac:(lia)) as (l & -> & Hl). cbn [res_bind].
+    exists (hid x :: l). split; [reflexivity|]. intros id. rewrite elem_of_cons, Hl. split.
+    + intros [->|(j & y & Hb & Hy & Hid)].
+      * exists (Z.to_nat h), x. split; [lia|]. split; [exact Hx|reflexivity].
+      * exists j, y. split; [lia|]. split; assumption.
+    + intros (j & y & Hb & Hy & Hid). destruct (decide (Z.of_nat j = h)) as [Heq|Hne].
+      * left. replace j with (Z.to_nat h) in Hy by lia. congruence.
+      * right. exists j, y. split; [lia|]. split; assumption.
+Qed.
+
+Lemma delete_all_in ks (m : gmap Z Z) id : id ∈ ks -> delete_all ks m !! id = None.
+Proof.
+  induction ks as [|k ks IH]; intros Hin; [inversion Hin|]. cbn [delete_all foldr].
+  destruct (decide (k = id)) as [->|Hne]; [apply lookup_delete|].
+  rewrite lookup_delete_ne by exact Hne. apply IH. apply elem_of_cons in Hin as [->|Hin]; congruence.
+Qed.
+
+Lemma delete_all_notin ks (m : gmap Z Z) id : id ∉ ks -> delete_all ks m !! id = m !! id.
+Proof.
+  induction ks as [|k ks IH]; intros Hin; [reflexivity|]. cbn [delete_all foldr].
+  apply not_elem_of_cons in Hin as [Hne Hin].
+  rewrite lookup_delete_ne by congruence. apply IH. exact Hin.
+Qed.
+
+Lemma remove_files_spec K rm_err c fuel : forall (st : gmap Z (list header)) g t,
+  0 < K -> 0 <= t -> t / K <= g -> g * K < zlen c ->
+  (forall i, st !! i = if i <=? g then file_at K c i else None) ->
+  (Z.to_nat (g - t / K) < fuel)%nat ->
+  exists st' : gmap Z (list header),
+    remove_files K rm_err st fuel (g * K - 1) t = (Some (t / K * K - 1), st') /\
+    forall i, st' !! i = if i <=? t / K then file_at K c i else None.
+Proof.
+  induction fuel as [|fuel IH]; intros st g t HK Ht Hg Hgc Hst Hfuel; [lia|].
+  pose proof (div_bounds t K HK) as Hb. pose proof (div_nonneg t K HK Ht) as Hf0.
+  set (f' := t / K) in *. cbn [remove_files].
+  destruct (g * K - 1 >=? t) eqn:E.
+  - assert (Hlt : f' < g) by (apply (mul_lt_K_inv f' g K HK); lia).
+    assert (Hp : path K (g * K - 1 + K) = g).
+    { unfold path. rewrite godiv_div by nia. apply div_unique_bounds; lia. }
+    rewrite Hp. unfold store in *. rewrite Hst.
+    destruct (g <=? g) eqn:E2; [|lia]. rewrite file_at_Some by lia.
+    replace (g * K - 1 - K) with ((g - 1) * K - 1) by lia.
+    apply IH; fold f'; [exact HK|exact Ht|lia|lia| |lia].
+    intros i. destruct (decide (i = g)) as [->|Hne].
+    + rewrite lookup_delete. destruct (g <=? g - 1) eqn:E3; [lia|reflexivity].
+    + rewrite lookup_delete_ne by congruence. rewrite Hst.
+      destruct (i <=? g) eqn:E3; destruct (i <=? g - 1) eqn:E4; try lia; reflexivity.
+  - assert (Heq : g = f').
+    { assert (g < f' + 1) by (apply (mul_lt_K_inv g (f' + 1) K HK); lia). lia. }
+    subst g. exists st. split; [reflexivity|exact Hst].
+Qed.
+
+Lemma NoDup_map_take (c : list header) n : NoDup (map hid c) -> NoDup (map hid (take n c)).
+Proof.
+  intros Hnd. rewrite <- (take_drop n c), map_app in Hnd. apply NoDup_app in Hnd as [Hnd _].
+  exact Hnd.
+Qed.
+
+Lemma R_after_revert K c t lasth' (hts : gmap Z Z) (st3 : gmap Z (list header)) :
+  0 < K -> c <> [] -> NoDup (map hid c) -> 0 <= t < zlen c ->
+  lasth' = drop (Z.to_nat (t / K * K)) (take (Z.to_nat (t + 1)) c) ->
+  (forall id, hts !! id = find_id (take (Z.to_nat (t + 1)) c) id) ->
+  (forall i, st3 !! i = if i =? t / K then Some lasth'
+                        else if i <? t / K then file_at K c i else None) ->
+  R K (Repo t lasth' hts) st3 (AState (take (Z.to_nat (t + 1)) c) (t + 1)).
+Proof.
+  intros HK Hne Hnd Ht Hl Hhs Hst.
+  pose proof (div_bounds t K HK) as Hb. pose proof (div_nonneg t K HK ltac:(lia)) as Hf0.
+  set (c' := take (Z.to_nat (t + 1)) c) in *.
+  assert (Hzc : zlen c' = t + 1) by (subst c'; rewrite zlen_take; lia).
+  assert (Hf : fidx K c' = t / K) by (unfold fidx; rewrite Hzc; f_equal; lia).
+  set (f' := t / K) in *. assert (0 <= f' * K) by nia.
+  constructor; cbn [chain saved height lasth heights]; try rewrite Hf; try rewrite Hzc.
+  - intros Heq. rewrite Heq in Hzc. change (zlen []) with 0 in Hzc. lia.
+  - apply NoDup_map_take. exact Hnd.
+  - lia.
+  - lia.
+  - exact Hl.
+  - exact Hhs.
+  - intros i. rewrite Hst. rewrite (take_ge c') by (unfold zlen in *; lia).
+    destruct (i =? f') eqn:E1.
+    + apply Z.eqb_eq in E1. subst i. rewrite file_at_Some by lia. f_equal. rewrite Hl.
+      symmetry. apply take_ge. rewrite drop_length. unfold zlen in *. lia.
+    + destruct (i <? f') eqn:E2.
+      * destruct (Z.lt_ge_cases i 0) as [Hi|Hi]; [rewrite !file_at_None by lia; reflexivity|].
+        pose proof (mul_le_mono_K (i + 1) f' K HK ltac:(lia)).
+        symmetry. apply file_at_take_full; lia.
+      * pose proof (mul_le_mono_K (f' + 1) i K HK ltac:(lia)).
+        symmetry. apply file_at_None; lia.
+Qed.
+
+Lemma revert_R K rm_err r st a t :
+  0 < K -> R K r st a -> 0 <= t <= zlen (chain a) - 1 ->
+  exists r' st', revert K rm_err r st t = (Ok tt, r', st') /\
+    R K r' st' (AState (take (Z.to_nat (t + 1)) (chain a)) (t + 1)).
+Proof.
+  intros HK HR Ht. pose proof (save_R K r st a HK HR) as HR1.
+  destruct HR as [Hne Hnd Hh _ Hl Hhs _]. pose proof (R_store _ _ _ _ HR1) as Hst1.
+  cbn [chain saved] in Hst1. set (c := chain a) in *.
+  destruct (fidx_bounds K c HK Hne) as (Hf0 & HfK0 & Hfb).
+  pose proof (div_bounds t K HK) as Hb. pose proof (div_nonneg t K HK ltac:(lia)) as Hf'0.
+  unfold revert. destruct (t >? height r) eqn:E1; [lia|]. destruct (t <? 0) eqn:E2; [lia|].
+  set (st1 := save K r st) in *.
+  destruct (collect_hashes_spec K r st1 _ (Z.to_nat (height r - t)) (height r) HK HR1
+              ltac:(lia) ltac:(lia)) as (removed & -> & Hrem).
+  cbn [chain] in Hrem. fold c in Hrem.
+  rewrite (godiv_div (height r) K) by lia. rewrite Hh. fold (fidx K c). set (f := fidx K c) in *.
+  rewrite take_ge in Hst1 by (unfold zlen; lia).
+  assert (Hff : t / K <= f).
+  { assert (t / K < f + 1) by (apply (mul_lt_K_inv (t / K) (f + 1) K HK); lia). lia. }
+  destruct (remove_files_spec K rm_err c (Z.to_nat (f + 1)) st1 f t HK ltac:(lia) Hff ltac:(lia))
+    as (st2 & -> & Hst2).
+  { intros i. rewrite Hst1. destruct (i <=? f) eqn:E3; [reflexivity|].
+    pose proof (mul_le_mono_K (f + 1) i K HK ltac:(lia)). apply file_at_None; lia. }
+  { lia. }
+  set (f' := t / K) in *. assert (0 <= f' * K) by nia.
+  assert (Hp : path K (f' * K - 1 + K) = f').
+  { unfold path. rewrite godiv_div by lia. apply div_unique_bounds; lia. }
+  rewrite Hp. pose proof (Hst2 f') as Hd. destruct (f' <=? f') eqn:E3; [|lia].
+  rewrite file_at_Some in Hd by lia. unfold store in *. rewrite Hd.
+  set (data := take (Z.to_nat K) (drop (Z.to_nat (f' * K)) c)) in *.
+  set (cnt := t - (f' * K - 1)).
+  assert (Hzd : zlen data = Z.min K (zlen c - f' * K))
+    by (subst data; rewrite zlen_take, zlen_drop; lia).
+  assert (Htk : take (Z.to_nat cnt) data =
+                drop (Z.to_nat (f' * K)) (take (Z.to_nat (t + 1)) c)).
+  { subst data. rewrite take_take, take_drop_commute. do 2 f_equal. lia. }
+  assert (Hhts : forall id, delete_all removed (heights r) !! id =
+                            find_id (take (Z.to_nat (t + 1)) c) id).
+  { intros id. rewrite find_id_from, find_from_take.
+    destruct (decide (id ∈ removed)) as [Hin|Hnin].
+    - rewrite delete_all_in by exact Hin. apply Hrem in Hin as (j & x & Hj & Hx & <-).
+      rewrite (find_from_nodup c 0 j x Hnd Hx).
+      destruct (0 + Z.of_nat j <? 0 + Z.of_nat (Z.to_nat (t + 1))) eqn:E4; [lia|reflexivity].
+    - rewrite delete_all_notin by exact Hnin. rewrite Hhs, find_id_from.
+      destruct (find_from c id 0) as [z|] eqn:E4; [|reflexivity].
+      destruct (z <? 0 + Z.of_nat (Z.to_nat (t + 1))) eqn:E5; [reflexivity|].
+      exfalso. apply Hnin. apply Hrem. apply find_from_Some in E4 as (Hz & x & Hx & Hid).
+      exists (Z.to_nat (z - 0)), x. split; [lia|]. split; assumption. }
+  destruct ((cnt <? K) && (zlen data >? cnt)) eqn:E4.
+  - eexists _, _. split; [reflexivity|].
+    apply R_after_revert; try assumption; try lia.
+    intros i. fold f'. rewrite Htk. destruct (i =? f') eqn:E5.
+    + apply Z.eqb_eq in E5. subst i. apply lookup_insert.
+    + rewrite lookup_insert_ne by lia. rewrite Hst2.
+      destruct (i <=? f') eqn:E6; destruct (i <? f') eqn:E7; try lia; reflexivity.
+  - eexists _, _. split; [reflexivity|].
+    assert (Hdd : data = take (Z.to_nat cnt) data).
+    { symmetry. apply take_ge. unfold zlen in *. lia. }
+    rewrite Hdd at 1. rewrite Htk.
+    apply R_after_revert; try assumption; try lia; try reflexivity.
+    intros i. fold f'. rewrite <- Htk, <- Hdd. destruct (i =? f') eqn:E5.
+    + apply Z.eqb_eq in E5. subst i. exact Hd.
+    + rewrite Hst2.
+      destruct (i <=? f') eqn:E6; destruct (i <? f') eqn:E7; try lia; reflexivity.
+Qed.
+
+(* ---------------------------------------------------------------------------------------- *)
+(* The list of stored files                                                                  *)
+
+Definition nfiles (K n : Z) : Z := (n + K - 1) / K.
+
+Lemma nfiles_spec K n i : 0 < K -> 0 <= n -> (i < nfiles K n <-> i * K < n).
+Proof.
+  intros HK Hn. unfold nfiles. pose proof (div_bounds (n + K - 1) K HK) as Hb.
+  set (q := (n + K - 1) / K) in *. split; intros Hi.
+  - pose proof (mul_le_mono_K i (q - 1) K HK ltac:(lia)). lia.
+  - apply (mul_lt_K_inv i q K HK). lia.
+Qed.
+
+Lemma nfiles_nonneg K n : 0 < K -> 0 <= n -> 0 <= nfiles K n.
+Proof.
+  intros HK Hn. destruct (Z.lt_ge_cases (nfiles K n) 0) as [Hlt|]; [|assumption].
+  pose proof (proj1 (nfiles_spec K n (nfiles K n + 1) HK Hn)). nia.
+Qed.
+
+Definition chunk (K : Z) (p : list header) (j : nat) : list header :=
+  take (Z.to_nat K) (drop (Z.to_nat (Z.of_nat j * K)) p).
+
+Definition file_list (K : Z) (p : list header) : list (Z * list header) :=
+  map (fun j : nat => (Z.of_nat j, chunk K p j)) (seq 0 (Z.to_nat (nfiles K (zlen p)))).
+
+Lemma store_perm K p (st : gmap Z (list header)) :
+  0 < K -> (forall i, st !! i = file_at K p i) -> map_to_list st ≡ₚ file_list K p.
+Proof.
+  intros HK Hst. pose proof (zlen_nonneg p) as Hp.
+  pose proof (nfiles_nonneg K (zlen p) HK Hp) as Hnf.
+  apply NoDup_Permutation.
+  - apply NoDup_map_to_list.
+  - unfold file_list.
+    assert (Hinj : Inj (=) (=) (fun j : nat => (Z.of_nat j, chunk K p j))).
+    { intros x y [= Hxy _]. lia. }
+    apply (NoDup_fmap_2 (fun j : nat => (Z.of_nat j, chunk K p j))). apply NoDup_seq.
+  - intros [i x]. rewrite elem_of_map_to_list, Hst. unfold file_list.
+    change (map ?f ?l) with (f <$> l). rewrite elem_of_list_fmap. split.
+    + unfold file_at. destruct ((i <? 0) || (zlen p <=? i * K)) eqn:E; [discriminate|].
+      intros [= <-]. exists (Z.to_nat i). split.
+      * unfold chunk. replace (Z.of_nat (Z.to_nat i)) with i by lia. reflexivity.
+      * apply elem_of_seq. pose proof (proj2 (nfiles_spec K (zlen p) i HK Hp)). lia.
+    + intros (j & [= -> ->] & Hj). apply elem_of_seq in Hj.
+      pose proof (proj1 (nfiles_spec K (zlen p) (Z.of_nat j) HK Hp) ltac:(lia)).
+      rewrite file_at_Some by lia. reflexivity.
+Qed.
+
+Lemma store_size K p (st : gmap Z (list header)) :
+  0 < K -> (forall i, st !! i = file_at K p i) -> Z.of_nat (size st) = nfiles K (zlen p).
+Proof.
+  intros HK Hst. pose proof (zlen_nonneg p) as Hp.
+  pose proof (nfiles_nonneg K (zlen p) HK Hp) as Hnf.
+  unfold size, map_size. rewrite (Permutation_length (store_perm K p st HK Hst)).
+  unfold file_list. rewrite map_length, seq_length. lia.
+Qed.
+
+Lemma insert_kv_comm {A} (a b : Z * A) l :
+  fst a <> fst b -> insert_kv a (insert_kv b l) = insert_kv b (insert_kv a l).
+Proof.
+  intros Hne. induction l as [|x l IH].
+  - cbn [insert_kv]. destruct (fst a <=? fst b) eqn:E1; destruct (fst b <=? fst a) eqn:E2;
+      try lia; reflexivity.
+  - cbn [insert_kv].
+    destruct (fst b <=? fst x) eqn:E1; destruct (fst a <=? fst x) eqn:E2; cbn [insert_kv];
+      rewrite ?E1, ?E2;
+      try (destruct (fst a <=? fst b) eqn:E3); try (destruct (fst b <=? fst a) eqn:E4);
+      try lia; try reflexivity.
+    f_equal. exact IH.
+Qed.
+
+Lemma sort_kv_perm {A} (l1 l2 : list (Z * A)) :
+  NoDup (l1.*1) -> l1 ≡ₚ l2 -> sort_kv l1 = sort_kv l2.
+Proof.
+  intros Hnd Hp. unfold sort_kv. apply (foldr_permutation (=) insert_kv [] l1 l2); [|exact Hp].
+  intros j1 a1 j2 a2 b Hj H1 H2. apply insert_kv_comm. intros Heq. apply Hj.
+  apply (NoDup_lookup (l1.*1) j1 j2 (fst a1) Hnd).
+  - rewrite list_lookup_fmap, H1. reflexivity.
+  - rewrite list_lookup_fmap, H2, Heq. reflexivity.
+Qed.
+
+Lemma sort_kv_seq {A} (g : nat -> A) m : forall s,
+  sort_kv (map (fun j : nat => (Z.of_nat j, g j)) (seq s m)) =
+  map (fun j : nat => (Z.of_nat j, g j)) (seq s m).
+Proof.
+  unfold sort_kv. induction m as [|m IH]; intros s; cbn [seq map foldr]; [reflexivity|].
+  rewrite IH. destruct m as [|m]; cbn [seq map insert_kv fst]; [reflexivity|].
+  destruct (Z.of_nat s <=? Z.of_nat (S s)) eqn:E; [reflexivity|lia].
+Qed.
+
+Lemma files_of_list K p : forall m s fuel,
+  0 < K -> (m <= fuel)%nat -> Z.of_nat s + Z.of_nat m = nfiles K (zlen p) ->
+  flat_map (fun kv : Z * list header => [fst kv; zlen (snd kv)])
+           (map (fun j : nat => (Z.of_nat j, chunk K p j)) (seq s m)) =
+  files_of K fuel (Z.of_nat s) (zlen p - Z.of_nat s * K).
+Proof.
+  pose proof (zlen_nonneg p) as Hp.
+  induction m as [|m IH]; intros s fuel HK Hfuel Hs.
+  - cbn [seq map flat_map].
+    assert (~ Z.of_nat s * K < zlen p).
+    { intros Hlt. apply (nfiles_spec K (zlen p) _ HK Hp) in Hlt. lia. }
+    destruct fuel as [|fuel]; [reflexivity|]. cbn [files_of].
+    destruct (zlen p - Z.of_nat s * K <=? 0) eqn:E; [reflexivity|lia].
+  - destruct fuel as [|fuel]; [lia|]. cbn [seq map flat_map files_of fst snd app].
+    assert (Hlt : Z.of_nat s * K < zlen p) by (apply (nfiles_spec K (zlen p) _ HK Hp); lia).
+    destruct (zlen p - Z.of_nat s * K <=? 0) eqn:E; [lia|].
+    assert (0 <= Z.of_nat s * K) by nia.
+    f_equal. f_equal.
+    + unfold chunk. rewrite zlen_take, zlen_drop. lia.
+    + rewrite (IH (S s) fuel HK ltac:(lia) ltac:(lia)). f_equal; lia.
+Qed.
+
+Lemma files_obs_spec K r st a :
+  0 < K -> R K r st a -> files_obs st = files_of K (Z.to_nat (saved a)) 0 (saved a).
+Proof.
+  intros HK [Hne Hnd Hh Hs Hl Hhs Hst].
+  destruct (fidx_bounds K (chain a) HK Hne) as (Hf0 & HfK0 & Hfb).
+  set (p := take (Z.to_nat (saved a)) (chain a)) in *.
+  assert (Hzp : zlen p = saved a) by (subst p; rewrite zlen_take; lia).
+  pose proof (zlen_nonneg p) as Hp. pose proof (nfiles_nonneg K (zlen p) HK Hp) as Hnf.
+  unfold files_obs. unfold store in *.
+  rewrite (sort_kv_perm _ _ (NoDup_fst_map_to_list st) (store_perm K p st HK Hst)).
+  unfold file_list. rewrite sort_kv_seq.
+  rewrite (files_of_list K p _ 0%nat (Z.to_nat (saved a)) HK); [rewrite Hzp; f_equal; lia| |lia].
+  destruct (Z.lt_ge_cases (zlen p) (nfiles K (zlen p))) as [Hlt|Hge]; [|lia].
+  pose proof (proj1 (nfiles_spec K (zlen p) (nfiles K (zlen p) - 1) HK Hp) ltac:(lia)). nia.
+Qed.
+
+(* ---------------------------------------------------------------------------------------- *)
+(* Load                                                                                      *)
+
+Lemma take_plus {A} (a b : nat) (l : list A) : take (a + b) l = take a l ++ take b (drop a l).
+Proof.
+  revert l. induction a as [|a IH]; intros l; [reflexivity|].
+  destruct l as [|x l]; [rewrite !take_nil, drop_nil, take_nil; reflexivity|].
+  cbn [Nat.add take drop app]. f_equal. apply IH.
+Qed.
+
+Lemma add_heights_spec : forall hs pre (m : gmap Z Z),
+  (forall id, m !! id = find_from pre id 0) -> NoDup (map hid (pre ++ hs)) ->
+  forall id, add_heights m hs (zlen pre) !! id = find_from (pre ++ hs) id 0.
+Proof.
+  induction hs as [|x hs IH]; intros pre m Hm Hnd id; cbn [add_heights].
+  - rewrite app_nil_r. apply Hm.
+  - replace (zlen pre + 1) with (zlen (pre ++ [x])) by (rewrite zlen_app; reflexivity).
+    replace (pre ++ x :: hs) with ((pre ++ [x]) ++ hs) in * by (rewrite <- app_assoc; reflexivity).
+    apply IH; [|exact Hnd]. intros id'. rewrite find_from_app, <- Hm.
+    destruct (decide (hid x = id')) as [<-|Hne].
+    + rewrite lookup_insert. rewrite Hm.
+      assert (Hnone : find_from pre (hid x) 0 = None).
+      { apply find_from_None. rewrite !map_app in Hnd. apply NoDup_app in Hnd as [Hnd _].
+        apply NoDup_app in Hnd as (_ & Hd & _). intros Hin. apply (Hd _ Hin).
+        cbn [map]. apply elem_of_list_here. }
+      rewrite Hnone, Z.eqb_refl. f_equal. lia.
+    + rewrite lookup_insert_ne by exact Hne. destruct (m !! id'); [reflexivity|].
+      destruct (hid x =? id') eqn:E; [lia|reflexivity].
+Qed.
+
+Lemma load_loop_spec K p (st : gmap Z (list header)) :
+  0 < K -> (forall i, st !! i = file_at K p i) -> NoDup (map hid p) ->
+  forall fuel g prev r,
+    0 <= g ->
+    height r = Z.min (g * K) (zlen p) - 1 ->
+    (forall id, heights r !! id = find_from (take (Z.to_nat (Z.min (g * K) (zlen p))) p) id 0) ->
+    (g = 0 -> r = new_repo) ->
+    (0 < g -> (g - 1) * K < zlen p /\
+              lasth r = take (Z.to_nat K) (drop (Z.to_nat ((g - 1) * K)) p)) ->
+    prev = (if g =? 0 then -1 else Z.min (g * K) (zlen p) - (g - 1) * K) ->
+    zlen p - g * K <= (Z.of_nat fuel - 1) * K -> (1 <= fuel)%nat ->
+    exists g' r', load_loop K st fuel g prev r = Ok (g', r') /\ 0 <= g' /\
+      (g' = 0 -> r' = new_repo /\ zlen p = 0) /\
+      (0 < g' -> (g' - 1) * K < zlen p <= g' * K /\ height r' = zlen p - 1 /\
+                 lasth r' = take (Z.to_nat K) (drop (Z.to_nat ((g' - 1) * K)) p) /\
+                 forall id, heights r' !! id = find_from p id 0).
+Proof.
+  intros HK Hst Hnd. pose proof (zlen_nonneg p) as Hp.
+  induction fuel as [|fuel IH]; intros g prev r Hg Hht Hhs Hg0 Hg1 Hprev Hfuel Hf1; [lia|].
+  assert (HgK : 0 <= g * K) by nia.
+  cbn [load_loop]. unfold read, path. rewrite godiv_div by lia. rewrite Z.div_mul by lia.
+  unfold store in *. rewrite Hst.
+  destruct (Z.le_gt_cases (zlen p) (g * K)) as [Hle|Hgt].
+  - rewrite file_at_None by lia. exists g, r. split; [reflexivity|]. split; [exact Hg|].
+    rewrite Z.min_r in * by lia. split.
+    + intros ->. split; [apply Hg0; reflexivity|lia].
+    + intros Hpos. destruct (Hg1 Hpos) as [Hlo Hla]. split; [lia|]. split; [exact Hht|].
+      split; [exact Hla|]. intros id. rewrite Hhs, take_ge by (unfold zlen; lia). reflexivity.
+  - rewrite file_at_Some by lia. rewrite Z.min_l in * by lia.
+    set (hs := take (Z.to_nat K) (drop (Z.to_nat (g * K)) p)) in *.
+    assert (Hzh : zlen hs = Z.min K (zlen p - g * K))
+      by (subst hs; rewrite zlen_take, zlen_drop; lia).
+    destruct (zlen hs =? 0) eqn:E0; [lia|].
+    assert (Hpv : negb (prev =? -1) && negb (prev =? K) = false).
+    { subst prev. destruct (g =? 0) eqn:E; [reflexivity|].
+      replace (g * K - (g - 1) * K) with K by lia. rewrite Z.eqb_refl, andb_false_r. reflexivity. }
+    rewrite Hpv.
+    assert (Hmin : Z.min ((g + 1) * K) (zlen p) = g * K + zlen hs) by lia.
+    assert (Htk : take (Z.to_nat (g * K + zlen hs)) p = take (Z.to_nat (g * K)) p ++ hs).
+    { subst hs. rewrite <- take_plus.
+      destruct (Z.le_gt_cases ((g + 1) * K) (zlen p)) as [Hle'|Hgt'].
+      - f_equal. lia.
+      - rewrite !take_ge; [reflexivity| |]; unfold zlen in *; lia. }
+    apply IH.
+    + lia.
+    + rewrite Hmin. cbn [height]. destruct (g =? 0) eqn:E; [|lia].
+      assert (g = 0) by lia. subst g. lia.
+    + intros id. rewrite Hmin, Htk. cbn [heights].
+      replace (height r + 1) with (zlen (take (Z.to_nat (g * K)) p)) by (rewrite zlen_take; lia).
+      apply add_heights_spec; [exact Hhs|]. rewrite <- Htk. apply NoDup_map_take. exact Hnd.
+    + lia.
+    + intros _. replace (g + 1 - 1) with g by lia. split; [lia|reflexivity].
+    + destruct (g + 1 =? 0) eqn:E; [lia|]. rewrite Hmin. replace (g + 1 - 1) with g by lia. lia.
+    + lia.
+    + assert (0 < Z.of_nat fuel * K) by lia. nia.
+Qed.
+
+Lemma load_R K r st a :
+  0 < K -> R K r st a ->
+  exists r', load K st = Ok r' /\
+    R K r' st (if saved a =? 0 then AState [genesis] 0
+               else AState (take (Z.to_nat (saved a)) (chain a)) (saved a)).
+Proof.
+  intros HK [Hne Hnd Hh Hs Hl Hhs Hst].
+  destruct (fidx_bounds K (chain a) HK Hne) as (Hf0 & HfK0 & Hfb).
+  set (c := chain a) in *. set (n := saved a) in *.
+  set (p := take (Z.to_nat n) c) in *.
+  assert (Hzp : zlen p = n) by (subst p; rewrite zlen_take; lia).
+  assert (Hndp : NoDup (map hid p)) by (apply NoDup_map_take; exact Hnd).
+  pose proof (store_size K p st HK Hst) as Hsz.
+  assert (Hfuel : zlen p - 0 * K <= (Z.of_nat (S (size st)) - 1) * K).
+  { pose proof (nfiles_spec K (zlen p) (nfiles K (zlen p)) HK ltac:(lia)). lia. }
+  destruct (load_loop_spec K p st HK Hst Hndp (S (size st)) 0 (-1) new_repo)
+    as (g' & r' & Hload & Hg' & Hz & Hpos); try reflexivity; try lia.
+  { intros id. reflexivity. }
+  unfold load. rewrite Hload. destruct (g' =? 0) eqn:E.
+  - assert (g' = 0) by lia. subst g'. destruct (Hz eq_refl) as [-> Hn0].
+    eexists. split; [reflexivity|]. destruct (n =? 0) eqn:E2; [|lia].
+    pose proof (R_init K HK) as HRi. destruct HRi as [H1 H2 H3 H4 H5 H6 H7].
+    constructor; try assumption.
+    intros i. cbn [chain saved]. rewrite Hst, take_0. fold p.
+    rewrite !file_at_None; [reflexivity|exact HK| |exact HK|]; change (zlen []) with 0;
+      (destruct (Z.lt_ge_cases i 0); [left; lia|right; nia]).
+  - destruct (Hpos ltac:(lia)) as (Hb & Hht & Hla & Hhts). exists r'. split; [reflexivity|].
+    destruct (n =? 0) eqn:E2; [lia|]. fold p.
+    assert (Hf : fidx K p = g' - 1) by (apply fidx_unique; [exact HK|lia]).
+    constructor; cbn [chain saved]; rewrite ?Hf.
+    + intros Heq. rewrite Heq in Hzp. change (zlen []) with 0 in Hzp. lia.
+    + exact Hndp.
+    + exact Hht.
+    + lia.
+    + rewrite Hla. apply take_ge. rewrite drop_length. unfold zlen in *. nia.
+    + intros id. rewrite Hhts, find_id_from. reflexivity.
+    + intros i. rewrite Hst. f_equal. symmetry. apply take_ge. unfold zlen in *. lia.
+Qed.
